@@ -101,3 +101,36 @@ def gradient_uninterpreted_model(h, cls, n, p):
     g = L.gradient(th)
     h.is_gradient("gradient", lambda t: L(t), th, g)
     h.eq("call==sum_log_pdf", L(th), _reference(h, cls, y, s, model(th)))
+
+
+@unit("C05", quick=[dict(cls=c, form=f) for c in ("gauss", "cauchy") for f in ("int_array", "int_list", "float32")])
+def uncertainties_of_any_numeric_type(h, cls, form):
+    """uncertainties given as integers (array or list) or single precision (concrete values 1, 2, 4; symbolic data and
+    parameters): differences of the log-likelihood between two parameter vectors must equal those of the named
+    density with exactly these scales (the constant normalisation drops out, so no transcendental constant is
+    evaluated in floating point on one side only), and the gradient must be the derivative"""
+    import inference.likelihoods as lk
+    C = {"gauss": lk.GaussianLikelihood, "cauchy": lk.CauchyLikelihood, "logistic": lk.LogisticLikelihood}[cls]
+    h.patch(lk, logaddexp=funcs.logaddexp)
+    n, p_ = 3, 2
+    y = h.real("y", n)
+    th = h.real("t", p_)
+    th2 = h.real("t2", p_)
+    A = h.real("A", (n, p_))
+    vals = [1, 2, 4]  # dyadic: every float operation on them is exact, so real arithmetic models the doubles exactly
+    sig = {"int_array": np.array(vals), "int_list": list(vals), "float32": np.array(vals, dtype=np.float32)}[form]
+    L = C(y, sig, lambda t: A @ t, lambda t: A)
+    sf = np.array(vals, dtype=float)
+    if cls == "logistic":
+        sf = sf * (np.sqrt(3) / np.pi)
+    inv = 1.0 / sf
+
+    def kernel(t):
+        z = (y - A @ t) * inv
+        if cls == "gauss":
+            return sum(-0.5 * zi * zi for zi in z)
+        if cls == "cauchy":
+            return sum(-h.log(1 + zi * zi) for zi in z)
+        return sum(-zi - 2 * h.log(1 + h.exp(-zi)) for zi in z)
+    h.eq("log-likelihood difference between two parameter vectors", L(th) - L(th2), kernel(th) - kernel(th2))
+    h.is_gradient("gradient", lambda t: L(t), th, L.gradient(th))
